@@ -604,10 +604,11 @@ def check_C20(tier):
     tdir = os.path.join(work, "io")
     os.makedirs(tdir, exist_ok=True)
     open(os.path.join(tdir, "t.c"), "w").write(
-        '#include <stdint.h>\n#include <stdlib.h>\n#include <string.h>\nvoid print_i64(int64_t) asm("print_i64");\n'
+        '#include <stdint.h>\n#include <stdio.h>\n#include <stdlib.h>\n#include <string.h>\n#include <unistd.h>\nvoid print_i64(int64_t) asm("print_i64");\n'
         'void println_i64(int64_t) asm("println_i64");\n'
         'int main(int c, char **v) { for (int i = 2; i < c; i++) { int64_t x = (int64_t)strtoull(v[i], 0, 10); '
-        'if (v[1][0] == \'l\') println_i64(x); else print_i64(x); write(1, "|", 1); } return 0; }\n')
+        # the runtime may buffer its output (stdio): flush before the raw separator so that the order on the pipe is the call order
+        'if (v[1][0] == \'l\') println_i64(x); else print_i64(x); fflush(stdout); write(1, "|", 1); } return 0; }\n')
     r0 = subprocess.run(["gcc", "-w", "-o", os.path.join(tdir, "t"), os.path.join(tdir, "t.c"), nat.ioobj], stdout=subprocess.PIPE, stderr=subprocess.STDOUT, text=True)
     if r0.returncode != 0:
         raise ToolError("cannot build the io.c test driver: " + r0.stdout)
@@ -655,11 +656,12 @@ def check_C20(tier):
         # ---- (b) wrong number of arguments
         for wrong in sorted({n + 1, max(0, n - 1)} - {n}):
             b = os.path.join(nat.dir, nm + ".bin")
-            pr = subprocess.run([b] + ["1"] * wrong, stdout=subprocess.PIPE, timeout=10)
+            pr = subprocess.run([b] + ["1"] * wrong, stdout=subprocess.PIPE, stderr=subprocess.PIPE, timeout=10)
             so = pr.stdout.decode("latin-1")
             trailing_nul = so.endswith("\x00")
             obs.append({"name": "%s with %d arguments" % (nm, wrong), "kind": "arity", "callee": "", "w": [0, 0, 0, 0],
-                        "stdout": so.rstrip("\x00"), "status": pr.returncode})
+                        "stdout": so.rstrip("\x00"), "stderr": pr.stderr.decode("latin-1")[:200], "status": pr.returncode,
+                        "ranlike": any(re.fullmatch(r"-?\d+", tok) for tok in so.split())})
             if trailing_nul:
                 stats["arity message carries a trailing NUL byte (tolerated: the message itself is reported)"] += 1
     wd = os.path.join(work, "tlc")
@@ -1418,7 +1420,9 @@ def check_C18(tier):
         finally:
             os.remove(fp_)
         err = pr.stderr.decode("utf-8", "replace")
-        if pr.returncode in (0, 1) and "panicked at" not in err:
+        # any exit status is a verdict (0 accepted, non-zero rejected with a diagnostic); a crash is a Rust panic (status 101,
+        # "panicked at"), an abort or another signal
+        if 0 <= pr.returncode <= 100 and "panicked at" not in err:
             return n, ("ok" if pr.returncode == 0 else "parse_error"), ""
         m_ = re.search(r"panicked at [^\n]*\n?([^\n]*)", err)
         return n, "panic", ("scc check: exit status %d; %s" % (pr.returncode, (m_.group(0) if m_ else err[-200:]).replace("\n", " ")))[:200]
